@@ -30,7 +30,7 @@ def ReplaceAll(s, a, b):
 
 
 def int_to_str(i):
-    return z3.If(i >= 0, z3.IntToStr(i), z3.Concat(z3.StringVal("-"), z3.IntToStr(-i)))
+    return sym.int_str_term(z3.simplify(i))
 
 
 DIGITS_RE = z3.Plus(z3.Range("0", "9"))
@@ -175,6 +175,8 @@ class Models(object):
                 child.json = getattr(d, "json", True)
             elif shape[0] == "list":
                 self.E.assume(sym.is_kind(e.value, sym.K_LIST))
+            elif shape[0] == "str":
+                self.E.assume(sym.is_str(e.value))
         d.entries.append(e)
         return e
 
@@ -1687,8 +1689,13 @@ class Models(object):
 
     def int_of_str(self, s):
         E = self.E
+        hit = sym.INT_STR.get(z3.simplify(s).get_id())
+        if hit is not None and hit[0].eq(z3.simplify(s)):
+            return sym.mk_int(hit[1])           # A5: int(str(i)) == i
         if E.decide(z3.InRe(s, DIGITS_RE)):
             return sym.mk_int(z3.StrToInt(s))
+        if E.decide(z3.InRe(s, z3.Concat(z3.Re("-"), DIGITS_RE))):
+            return sym.mk_int(-z3.StrToInt(z3.SubString(s, 1, z3.Length(s) - 1)))
         if E.decide(z3.InRe(s, z3.Concat(DIGITS_RE, z3.Re("\n")))):
             return sym.mk_int(z3.StrToInt(z3.SubString(s, 0, z3.Length(s) - 1)))
         if E.decide(z3.InRe(s, INT_MAYBE_RE)):
